@@ -52,7 +52,7 @@ def run(ctx):
                 nb3 = S3[(i + j) % 6]
                 nw = S4[(i + 5 * j + 3) % 12]
                 rng = H.rng_for(ctx.seed, "C09", n1, nb4)
-                for stratum in ("moderate", "ultra", "backward"):
+                for stratum in ("moderate", "ultra", "backward", "at_rest"):
                     for rep in range(reps):
                         x, y, z, t = H.cart_stratum(rng, "quadrants", 4)
                         v = H.obj(vector, n1, H.from_cart(n1, x, y, z, t), momentum=bool(rep % 2))
@@ -67,14 +67,20 @@ def run(ctx):
                         dn = math.sqrt(sum(q * q for q in d))
                         bmag = rng.choice([1 - 1e-4, 1 - 1e-6]) if stratum == "ultra" else rng.uniform(0.1, 0.9)
                         beta = [q / dn * bmag for q in d]
+                        nb3_, nb4_ = nb3, nb4
+                        if stratum == "at_rest":
+                            # the identity boost: velocity exactly zero / booster exactly at rest (representable with z storage)
+                            bmag, beta = 0.0, [0.0, 0.0, 0.0]
+                            nb3_ = nb3 if "z" in nb3 else ("x", "y", "z")
+                            nb4_ = nb4 if "z" in nb4 else ("x", "y", "z", "t")
                         g = 1 / math.sqrt(1 - bmag * bmag)
                         tol = 1e-9 * g * g
                         S = max(map(abs, cv + cw)) * g + 1
                         m = rng.uniform(0.5, 3)
                         p4c = [g * m * q for q in beta] + [g * m]
-                        b3 = H.obj(vector, nb3, H.from_cart(nb3, *beta))
-                        p4 = H.obj(vector, nb4, H.from_cart(nb4, *p4c))
-                        site = f"object:{H.sysname(n1)}|b3={H.sysname(nb3)}|p4={H.sysname(nb4)}"
+                        b3 = H.obj(vector, nb3_, H.from_cart(nb3_, *beta))
+                        p4 = H.obj(vector, nb4_, H.from_cart(nb4_, *p4c))
+                        site = f"object:{H.sysname(n1)}|b3={H.sysname(nb3_)}|p4={H.sysname(nb4_)}"
                         inp = {"v": repr(v), "w": repr(w), "beta3": repr(b3), "p4": repr(p4), "stratum": stratum}
                         n += 1
                         distinct.add((n1, nb4, stratum, rep))
@@ -99,6 +105,8 @@ def run(ctx):
                                 ctx.fail(site + ":tau_kept", "tau-stored vector: boost did not keep the stored tau", inp)
                         # axis spellings
                         bb = rng.uniform(-0.9, 0.9) if stratum != "ultra" else rng.choice([-1, 1]) * (1 - 1e-4)
+                        if stratum == "at_rest":
+                            bb = 0.0
                         gg = 1 / math.sqrt(1 - bb * bb)
                         for ax, e in (("X", (1, 0, 0)), ("Y", (0, 1, 0)), ("Z", (0, 0, 1))):
                             ra = getattr(v, "boost" + ax)(beta=bb)
@@ -109,6 +117,8 @@ def run(ctx):
                                 axis3 = H.obj(vector, "xyz" and ("x", "y", "z"), {"x": bb * e[0], "y": bb * e[1], "z": bb * e[2]})
                                 chk("boost" + ax + "_vs_beta3", c4(v.boost_beta3(axis3)), c4(ra), 1e-9 * gg * gg)
                         b1, b2_ = rng.uniform(-0.8, 0.8), rng.uniform(-0.8, 0.8)
+                        if stratum == "at_rest":
+                            b2_ = -b1       # composition to the identity
                         chk("velocity_addition", c4(v.boostX(beta=b2_).boostX(beta=b1)), c4(v.boostX(beta=(b1 + b2_) / (1 + b1 * b2_))), 1e-8)
                         # centre of mass
                         for nm, r in (("boostCM_of_p4", p4.boostCM_of_p4(p4)), ("boostCM_of", p4.boostCM_of(p4)),
@@ -135,6 +145,15 @@ def run(ctx):
     ctx.coverage["samples"] = samples
     ctx.coverage["correspondences"] = {"object backend vs independent Lorentz matrix (all spellings)": {"ok": not any(f["site"].startswith("object") for f in ctx.failures)},
                                        "numpy/awkward == object": {"ok": not any(f["site"].startswith(("numpy", "awkward")) for f in ctx.failures)}}
+
+
+_run_without_compiled = run
+
+
+def run(ctx):
+    _run_without_compiled(ctx)
+    from tools import nbrows
+    nbrows.check(ctx, ['boostX_beta', 'boostY_beta', 'boostZ_beta', 'boostX_gamma', 'boostY_gamma', 'boostZ_gamma', 'boostX_pos', 'boost_p4', 'boost_beta3', 'boost', 'boostCM_of', 'boostCM_of_p4', 'boostCM_of_beta3', 'to_beta3'], 'the boosts')
 
 
 def replay(rec):
